@@ -232,8 +232,10 @@ def d4(db='default', tracer=None, **opts):
               stderr=err)
     kw.update(opts)
     res.stage = 'command'
+    import contextlib
     try:
-        with tracer.active():
+        with tracer.active(), contextlib.redirect_stdout(out), \
+                contextlib.redirect_stderr(err):
             call_command('migrate', **kw)
         res.ok = True
     except BaseException as e:
